@@ -1625,10 +1625,10 @@ func (f *File) WriteTo(w io.Writer) (written int64, err error) {
 			return written, errors.New("sftp.File.WriteTo: unexpectedly closed channel")
 		}
 
-		// Because writes are serialized, this will always be the last successfully read byte.
-		f.offset = packet.off + int64(len(packet.b))
-
 		if len(packet.b) > 0 {
+			// Because writes are serialized, this will always be the last successfully read byte.
+			f.offset = packet.off + int64(len(packet.b))
+
 			n, err := w.Write(packet.b)
 			written += int64(n)
 			if err != nil {
